@@ -46,9 +46,12 @@ fn checked_snapshot(abt: &AtomicBaseTime, allowed: &[u64], at_least: u64, max_up
     assert!(BASE_TIME_CHECK.check(t, v), "TORN: snapshot returned base {} with a voucher for another value", t);
     assert!(allowed.contains(&t), "snapshot returned base {} which was never passed to an accepted update (allowed {:?})", t, allowed);
     assert!(t >= at_least, "STALE: snapshot returned base {} although an update to {} completed before it began", t, at_least);
-    assert_eq!(locks, 0, "snapshot performed {} lock operations", locks);
-    assert_eq!(stores, 0, "snapshot performed {} stores", stores);
-    assert!(loads <= 1 + 3 * (1 + max_updates), "snapshot performed {} atomic loads with at most {} concurrent updates", loads, max_updates);
+    if C18_MODE.load(StdOrdering::Relaxed) {
+        // the C18 cross-check: a snapshot takes no lock and retries only when writes completed
+        assert_eq!(locks, 0, "snapshot performed {} lock operations", locks);
+        assert_eq!(stores, 0, "snapshot performed {} stores", stores);
+        assert!(loads <= 1 + 3 * (1 + max_updates), "snapshot performed {} atomic loads with at most {} concurrent updates", loads, max_updates);
+    }
     t
 }
 
@@ -70,6 +73,7 @@ enum Harness {
 const HARNESSES: [Harness; 6] = [Harness::A, Harness::B, Harness::C, Harness::D, Harness::E, Harness::F];
 
 static EXECUTIONS: StdAtomicU64 = StdAtomicU64::new(0);
+static C18_MODE: std::sync::atomic::AtomicBool = std::sync::atomic::AtomicBool::new(false);
 
 fn body(h: Harness) {
     EXECUTIONS.fetch_add(1, StdOrdering::Relaxed);
@@ -211,6 +215,7 @@ fn run(ctx: &Ctx) -> Report {
     if ctx.prop != "C13" && ctx.prop != "C18" {
         machinery_failure("abt_loom serves C13 (and the C18 cross-check)");
     }
+    C18_MODE.store(ctx.prop == "C18", StdOrdering::Relaxed);
     let bounds: Vec<Option<usize>> = match ctx.tier {
         Tier::Quick => vec![Some(2)],
         Tier::Thorough => vec![Some(2), Some(3), None],
@@ -266,7 +271,8 @@ fn run(ctx: &Ctx) -> Report {
     rep
 }
 
-fn replay(_ctx: &Ctx, text: &str) -> Result<String, String> {
+fn replay(ctx: &Ctx, text: &str) -> Result<String, String> {
+    C18_MODE.store(ctx.prop == "C18", StdOrdering::Relaxed);
     let h = HARNESSES.iter().copied().find(|h| Some(format!("{:?}", h).as_str()) == field(text, "harness")).unwrap_or_else(|| machinery_failure("bad harness"));
     let bound = match field(text, "bound") {
         Some("unbounded") => None,
